@@ -17,7 +17,7 @@ Case == Cases[cid]
 
 Init == cid \in 1..Len(Cases) /\ S = InitS(Cases[cid])
 Next == S.pc = "iter" /\ S' = Step(Case, S) /\ UNCHANGED cid
-Spec == Init /\ [][Next]_mvars
+Spec == Init /\ [][Next]_mvars /\ WF_mvars(Next)
 
 \* ---- properties of the design (C01, C03, C04, C13, C15) --------------------------------------------
 ReturnedOnceInOrder == Increasing(S.returned) /\ Increasing(S.unmatched)
@@ -35,6 +35,9 @@ AdvanceInert == [][(S' # S /\ S'.kind = "advance") =>
                      /\ S'.st.vars = S.st.vars /\ S'.st.printed = S.st.printed /\ S'.st.valid = S.st.valid
                      /\ S'.st.matchCount = S.st.matchCount]_mvars
 FrozenOnlyAtEnd == [][(S'.st.frozen /\ ~S.st.frozen) => (S'.pc = "done" \/ S'.kind = "blanklast")]_mvars
+
+\* every run ends: no csvpath makes the run loop forever (liveness, checked under weak fairness of the only action)
+Termination == <>(S.pc = "done")
 
 Emit == S.pc = "done" =>
    PrintT(<<"F", ToJson([cid |-> Case.tid, returned |-> S.returned, unmatched |-> S.unmatched, vars |-> NormVars(S.st.vars),
